@@ -163,30 +163,39 @@ func recM(f mhttp2.Frame) frec {
 // logical describes one logical frame of the wire (HEADERS with its CONTINUATIONs is one).
 type logical struct {
 	Type      uint8
-	Off       int
+	Off, End  int
 	Conts     int
 	EmptyFrag bool // HEADERS whose own header block fragment is empty
+	open      bool // header block not yet ended
 }
 
-// walk splits the wire into logical frames from the 9-byte frame headers alone.
+// walk splits the wire into logical frames from the 9-byte frame headers alone; an incomplete frame at
+// the end is not reported.
 func walk(wire []byte) []logical {
 	var out []logical
 	for off := 0; off+9 <= len(wire); {
 		n := int(wire[off])<<16 | int(wire[off+1])<<8 | int(wire[off+2])
 		typ, flags := wire[off+3], wire[off+4]
-		if typ == 9 && len(out) > 0 && out[len(out)-1].Type == 1 {
-			out[len(out)-1].Conts++
+		if off+9+n > len(wire) {
+			break
+		}
+		if typ == 9 && len(out) > 0 && out[len(out)-1].Type == 1 && out[len(out)-1].open {
+			l := &out[len(out)-1]
+			l.Conts++
+			l.End = off + 9 + n
+			l.open = flags&0x4 == 0
 		} else {
-			l := logical{Type: typ, Off: off}
+			l := logical{Type: typ, Off: off, End: off + 9 + n}
 			if typ == 1 {
 				frag := n
-				if flags&0x8 != 0 && n > 0 && off+9 < len(wire) { // PADDED
+				if flags&0x8 != 0 && n > 0 { // PADDED
 					frag -= 1 + int(wire[off+9])
 				}
 				if flags&0x20 != 0 { // PRIORITY
 					frag -= 5
 				}
 				l.EmptyFrag = frag <= 0
+				l.open = flags&0x4 == 0
 			}
 			out = append(out, l)
 		}
